@@ -249,10 +249,11 @@ def h_read_sync(H):
 @harness(PROPERTY, "read_sync_nidq_analog", functions=["spikeglx:Reader.read_sync", "spikeglx:Reader.read_sync_analog", "spikeglx:Reader.read", "spikeglx:_get_analog_sync_trace_indices_from_meta"],
          clause="digital lines first and thresholded analog lines after them: each analog sync channel is compared with the threshold after removing its own floor")
 def h_read_sync_nidq(H):
-    for nxa, nma in ((1, 0), (2, 0), (1, 2), (2, 1)):
-        S = H.session(f"read_sync.nidq.xa{nxa}.ma{nma}")
+    OFF = object()
+    for nxa, nma, floor in ((1, 0, OFF), (2, 0, OFF), (1, 2, OFF), (2, 1, OFF), (1, 0, 0), (2, 0, False), (1, 1, None)):
+        S = H.session(f"read_sync.nidq.xa{nxa}.ma{nma}" + ("" if floor is OFF else f".floor_{floor}"))
 
-        def body(it, nxa=nxa, nma=nma):
+        def body(it, nxa=nxa, nma=nma, floor=floor):
             ns, a, b = z3.Ints("ns a b")
             thr = z3.Real("threshold")
             it.ctx.assume(z3.And(ns >= 1, a >= 0, a < b, b <= ns, thr > 0))     # a threshold <= 0 would turn the zeros written first into ones (not a TTL threshold)
@@ -262,14 +263,23 @@ def h_read_sync_nidq(H):
             s2v = A.fresh_array("s2v", "float64", (nc,))
             meta = {"typeThis": "nidq", "nSavedChans": nc, "snsMnMaXaDw": [nmn, nma, nxa, 1]}
             obj = SObj(spikeglx.Reader, _raw=raw, meta=meta, is_open=True, channel_conversion_sample2v={"nidq": s2v}, type="nidq")
-            out = run_function(it, spikeglx.Reader.read_sync, [obj, slice(SV(a), SV(b))], {"threshold": SV(thr)})
-            tag = f"xa{nxa}.ma{nma}"
+            out = run_function(it, spikeglx.Reader.read_sync, [obj, slice(SV(a), SV(b))], dict({"threshold": SV(thr)}, **({} if floor is OFF else {"floor_percentile": floor})))
+            tag = f"xa{nxa}.ma{nma}" + ("" if floor is OFF else f".floor_{floor}")
             it.ctx.oblige(f"read_sync.nidq.shape.{tag}", z3.And(z3.BoolVal(out.ndim == 2), A.T(out.shape[0]) == b - a, A.T(out.shape[1]) == 16 + nxa), "post", "one row per sample, 16 digital lines then one line per analog sync channel")
             i = z3.Int("i")
             it.ctx.assume(z3.And(i >= 0, i < b - a))
             for k in (0, 7, 15):
                 it.ctx.oblige(f"read_sync.nidq.bit.{k}.{tag}", out.read((i, z3.IntVal(k))) == bit(raw.read((a + i, nc - 1)), k), "post", assume=False)
             floors = [r for r in getattr(it.ctx, "reduce_log", []) if r["name"] == "percentile"]
+            if floor is not OFF:
+                # the documented way to switch the floor removal off (0 / False / None): the lines are the thresholded voltages themselves
+                it.ctx.oblige(f"read_sync.nidq.no_floor_removed.{tag}", z3.BoolVal(not floors), "post", "with floor_percentile 0 / False / None nothing is subtracted before thresholding")
+                for j in range(nxa):
+                    volts = A.cast_term("int16", "float32", raw.read((a + i, nmn + nma + j)))
+                    v = volts * s2v.read((z3.IntVal(nmn + nma + j),))
+                    it.ctx.oblige(f"read_sync.nidq.analog_line.{j}.{tag}", out.read((i, z3.IntVal(16 + j))) == z3.If(v >= thr, 1, 0), "post",
+                                  "analog line j is 1 exactly where channel j reaches the threshold", assume=False)
+                return
             okf = len(floors) == 1 and len(floors[0]["in_shape"]) == 2 and floors[0]["axis"] in (0, -2)
             it.ctx.oblige(f"read_sync.nidq.floor_per_channel.{tag}", z3.BoolVal(okf), "post", "the floor removed before thresholding is taken per analog channel (along samples)")
             if okf:
@@ -413,11 +423,12 @@ def b_nidq(B):
                             bad.append(("analog line", j, f"{i0.size} events written, {i1.size} recovered"))
             # the same samples read again on the same reader with another threshold / floor percentile: each call thresholds with its own options
             with spikeglx.Reader(f) as sr:
-                for kw in ({"threshold": 1.2}, {"threshold": 2.9}, {"threshold": 1.2, "floor_percentile": None}, {"threshold": 1.2}, {"threshold": 0.4}):
+                for kw in ({"threshold": 1.2}, {"threshold": 2.9}, {"threshold": 1.2, "floor_percentile": None}, {"threshold": 1.2}, {"threshold": 0.4},
+                           {"threshold": 1.2, "floor_percentile": 0}, {"threshold": 0.6, "floor_percentile": False}, {"threshold": 2.2, "floor_percentile": 0}):
                     for sl in (slice(0, ns), slice(0, ns)):
                         got = sr.read_sync(sl, **kw)
                         raw_v = sr.read(sl, slice(nma, nma + na), sync=False)
-                        base_ = np.percentile(raw_v, 10, axis=0) if kw.get("floor_percentile", 10) is not None else 0
+                        base_ = np.percentile(raw_v, 10, axis=0) if kw.get("floor_percentile", 10) else 0          # 0 / False / None switch the floor removal off
                         want_a = ((raw_v - base_) >= kw["threshold"]).astype(got.dtype)
                         if got.shape != (ns, 16 + na) or not np.array_equal(got[:, 16:], want_a) or not np.array_equal(got[:, :16], dig):
                             bad.append(("read_sync repeated with other options", kw))
